@@ -110,6 +110,9 @@ pub fn programs(tier: Tier) -> ProgramSet {
             }
         }
     }
+    for (spec, label) in scale_specs() {
+        push(crate::devs::Enumerated { spec, label, k: 1 }, &mut out);
+    }
     let mut ex = std::collections::BTreeMap::new();
     ex.insert("overlapping spellings / more than one default / default on a variant without exactly one field".to_string(), excluded);
     ProgramSet {
